@@ -132,7 +132,7 @@ func (g *gen) scalar() *gnmi.TypedValue {
 		if g.chance(4) {
 			return &gnmi.TypedValue{Value: &gnmi.TypedValue_DecimalVal{DecimalVal: nil}} // marshals as an empty message
 		}
-		return &gnmi.TypedValue{Value: &gnmi.TypedValue_DecimalVal{DecimalVal: &gnmi.Decimal64{Digits: []int64{0, 15, -15, math.MinInt64, math.MaxInt64}[g.r.Intn(5)], Precision: []uint32{0, 1, 2, 255, 256, 300}[g.r.Intn(6)]}}}
+		return &gnmi.TypedValue{Value: &gnmi.TypedValue_DecimalVal{DecimalVal: &gnmi.Decimal64{Digits: []int64{0, 15, -15, math.MinInt64, math.MaxInt64}[g.r.Intn(5)], Precision: []uint32{0, 1, 2, 18, 19, 64, 255, 256, 300}[g.r.Intn(9)]}}}
 	case 8:
 		return &gnmi.TypedValue{Value: &gnmi.TypedValue_FloatVal{FloatVal: []float32{0, 1.5, -2.25, float32(math.NaN()), float32(math.Inf(1)), float32(math.Inf(-1)), math.MaxFloat32, math.SmallestNonzeroFloat32}[g.r.Intn(8)]}}
 	case 9:
@@ -282,6 +282,9 @@ func (g *gen) validUpdate(target string) *gnmi.Update {
 	case 1:
 		return &gnmi.Update{Path: &gnmi.Path{Target: target, Elem: []*gnmi.PathElem{{Name: "list", Key: map[string]string{"k": k}}, {Name: "v"}}}, Val: str("v" + k)}
 	case 2:
+		if g.chance(6) { // a key leaf is compared as text: ValueToString of whatever value arrives
+			return &gnmi.Update{Path: &gnmi.Path{Target: target, Elem: []*gnmi.PathElem{{Name: "list", Key: map[string]string{"k": k}}, {Name: "k"}}}, Val: g.scalar()}
+		}
 		return &gnmi.Update{Path: &gnmi.Path{Target: target, Elem: []*gnmi.PathElem{{Name: "list", Key: map[string]string{"k": k}}, {Name: "k"}}}, Val: str(k)}
 	case 3:
 		return &gnmi.Update{Path: &gnmi.Path{Target: target, Elem: []*gnmi.PathElem{{Name: "cont"}, {Name: "leaf"}}}, Val: iv([]int64{0, -7, 300, math.MinInt64}[g.r.Intn(4)])}
@@ -308,7 +311,8 @@ func (g *gen) validUpdate(target string) *gnmi.Update {
 		return &gnmi.Update{Path: &gnmi.Path{Target: target, Elem: []*gnmi.PathElem{{Name: "cont"}, {Name: "llb"}}}, Val: ll(
 			&gnmi.TypedValue{Value: &gnmi.TypedValue_BoolVal{BoolVal: true}}, &gnmi.TypedValue{Value: &gnmi.TypedValue_BoolVal{BoolVal: false}})}
 	case 12:
-		return &gnmi.Update{Path: &gnmi.Path{Target: target, Elem: []*gnmi.PathElem{{Name: "cont"}, {Name: "dec"}}}, Val: &gnmi.TypedValue{Value: &gnmi.TypedValue_DecimalVal{DecimalVal: &gnmi.Decimal64{Digits: -5, Precision: 1}}}}
+		return &gnmi.Update{Path: &gnmi.Path{Target: target, Elem: []*gnmi.PathElem{{Name: "cont"}, {Name: "dec"}}}, Val: &gnmi.TypedValue{Value: &gnmi.TypedValue_DecimalVal{DecimalVal: &gnmi.Decimal64{Digits: []int64{-5, 0, 15, math.MaxInt64}[g.r.Intn(4)],
+			Precision: []uint32{1, 1, 2, 18, 19, 63, 64, 255, 256, 300, 1 << 31}[g.r.Intn(11)]}}}}
 	case 13:
 		return &gnmi.Update{Path: &gnmi.Path{Target: target, Elem: []*gnmi.PathElem{{Name: "cont"}, {Name: "flt"}}}, Val: &gnmi.TypedValue{Value: &gnmi.TypedValue_FloatVal{FloatVal: []float32{1.5, float32(math.Inf(1)), 0}[g.r.Intn(3)]}}}
 	case 14:
